@@ -254,13 +254,16 @@ def run(ctx: Ctx) -> int:
             pos += n
             if pos <= len(mm) and not any(x.startswith("memerr") for x in mm[:pos]):
                 mlive.append(int(mm[pos - 1].split("live=")[1].split(" ")[0]))
+        tie_pending = None
         if (merr is None) != (san is None) or (merr and san and merr != san and san not in ("ubsan",)):
-            ctx.tie_diff("tie S_c heap (verdict of Fw.Heap vs AddressSanitizer/UBSan)", replay, f"model: {merr}", f"sanitizer: {san} {res.stderr[:200]}")
+            tie_pending = ("tie S_c heap (verdict of Fw.Heap vs AddressSanitizer/UBSan)", replay, f"model: {merr}", f"sanitizer: {san} {res.stderr[:200]}")
         elif merr is None and heaps != mlive:
-            ctx.tie_diff("tie S_c heap (live array blocks at each marker)", replay, mlive, heaps)
+            tie_pending = ("tie S_c heap (live array blocks at each marker)", replay, mlive, heaps)
         # ---- the property on the real run
         if pyout is None:
             ctx.count("python-raises")
+            if tie_pending:
+                ctx.tie_diff(*tie_pending)
             continue
         if san is not None:
             forms = {o[0] for o in setup + loop}
@@ -275,7 +278,11 @@ def run(ctx: Ctx) -> int:
             key = ("heap:list-copy-semantics" if ({"dc", "av"} & forms) else
                    "heap:stale-length-after-runtime-remove" if (diverged and "scan" in forms) else "heap:memory-error")
             ctx.fail(key, f"memory error in firmware ({san}) although Python runs without IndexError: {res.stderr[:300]}", replay)
+            if tie_pending and not ctx.is_known(key):
+                ctx.tie_diff(*tie_pending)
             continue
+        if tie_pending:
+            ctx.tie_diff(*tie_pending)
         printed = []
         for l in res.trace:
             if l.startswith("println x") and l != ds.MARK:
